@@ -199,6 +199,7 @@ struct World
     std::map<std::tuple<int, int, uint64_t>, FrameRec> frames; // by cam,acq,hw
     std::vector<FrameRec> delivered[3];                         // in order
     StreamCfg pending[2];
+    StreamCfg applied[2]; // what the last acquire_configure was given
     std::deque<AcqRec> acqs;
     int acq_id = 0;
     bool running_expected = false;
@@ -206,6 +207,7 @@ struct World
     bool mon_stop[2] = { false, false };
     int mon_tid[2] = { -1, -1 };
     bool mon_ever[2] = { false, false };
+    bool mon_finite[2] = { false, false };
     std::vector<int> drainers;
     bool drain_stop = false;
     MonObs mon[2];
@@ -1212,7 +1214,7 @@ struct RtHarness : Harness
         const bool abort_prof = profile == "abort";
         const bool mon_prof = profile == "monitor";
         const bool prog_prof = profile == "program";
-        int nstreams = g.chance(0.3) ? 2 : 1;
+        int nstreams = g.chance(prog_prof ? 0.5 : 0.3) ? 2 : 1;
         int nacq = (int)g.range(1, 3);
         if (abort_prof || mon_prof || fault_prof)
             nacq = (int)g.range(2, 3);
@@ -1225,6 +1227,10 @@ struct RtHarness : Harness
             // "a later acquisition is complete and correct" is judged
             bool faults = fault_prof && !last;
             StreamCfg sc[2];
+            // a monitoring client that maps a few times without consuming and
+            // walks away: the ring fills, the writer sleeps, only abort can
+            // end the acquisition
+            const bool fullring = abort_prof && !last && g.chance(0.2);
             for (int s = 0; s < nstreams; ++s) {
                 sc[s] = gen_stream(x, s, avg_prof && g.chance(0.9),
                                    faults && (s == 0 || g.chance(0.5)));
@@ -1254,17 +1260,44 @@ struct RtHarness : Harness
                 }
                 if (abort_prof && !last && g.chance(0.2))
                     sc[s].n = INF_FRAMES;
+                if (fullring && s == 0) {
+                    sc[s].n = INF_FRAMES;
+                    sc[s].trig = 0;
+                    sc[s].cs.fail_start = sc[s].ss.fail_start = 0;
+                }
                 // device switches between acquisitions (one stream only: a
                 // device cannot be opened by both streams at once)
                 if (prog_prof && s == 0 && g.chance(0.25))
                     sc[s].cam = "cB";
                 if (prog_prof && s == 0 && g.chance(0.25))
                     sc[s].sto = "sB";
+                // a stream that was configured earlier is de-selected (its
+                // devices stay open until shutdown), or its camera refuses the
+                // new settings
+                if (prog_prof && a > 0 && s == 1 && g.chance(0.3)) {
+                    sc[s].cam = "none";
+                    sc[s].sto = "none";
+                }
+                if (prog_prof && a > 0 && g.chance(0.1))
+                    sc[s].cs.fail_set = 1;
                 maxframe = std::max(maxframe, frame_bytes(sc[s], false));
                 maxout = std::max(maxout, frame_bytes(sc[s], sc[s].avg > 1));
                 ops.push_back(cfg_line(s, sc[s]));
             }
             ops.push_back("configure");
+            if (fullring) {
+                if (mon_on[0])
+                    ops.push_back("mon s=0 on=0");
+                static const int64_t polls[] = { 200, 1000, 5000, 20000 };
+                char b[160];
+                snprintf(b, sizeof(b),
+                         "mon s=0 on=1 poll=%lld k=none hold=%lld maxmaps=%lld",
+                         (long long)polls[g.below(4)],
+                         (long long)(g.chance(0.5) ? 0 : 100),
+                         (long long)g.range(1, 6));
+                ops.push_back(b);
+                mon_on[0] = true;
+            }
             for (int s = 0; s < nstreams; ++s) {
                 bool want = mon_prof ? g.chance(0.9) : g.chance(0.3);
                 if (want && !mon_on[s] && (a > 0 || g.chance(0.8))) {
@@ -1320,6 +1353,10 @@ struct RtHarness : Harness
                                     : ((mon_prof || prog_prof || fault_prof) && !last
                                          ? g.chance(0.4)
                                          : false);
+            use_abort |= fullring;
+            // the client looks at a few frames, then gives up at once
+            if (fullring && g.chance(0.7))
+                ops.push_back("mon_wait s=0");
             if (use_abort) {
                 if (g.chance(0.4)) {
                     char b[64];
@@ -1503,6 +1540,8 @@ struct RtHarness : Harness
         }
         enum AcquireStatusCode rc = acquire_configure(w->rt, &props);
         (void)rc;
+        w->applied[0] = w->pending[0];
+        w->applied[1] = w->pending[1];
         for (int s = 0; s < 2; ++s)
             if (w->pending[s].valid)
                 storage_properties_destroy(&props.video[s].storage.settings);
@@ -1590,6 +1629,9 @@ struct RtHarness : Harness
           oid.c_str(), is_abort ? "acquire_abort returns" : "acquire_stop returns",
           300000);
         logline("CLIENT %s invoked", is_abort ? "abort" : "stop");
+        if (cond_waiters() > 0)
+            probe(is_abort ? "reach.abort_while_writer_waits_for_space"
+                           : "reach.stop_while_writer_waits_for_space");
         enum AcquireStatusCode rc =
           is_abort ? acquire_abort(w->rt) : acquire_stop(w->rt);
         logline("CLIENT %s returned", is_abort ? "abort" : "stop");
@@ -1690,8 +1732,8 @@ struct RtHarness : Harness
                 if (!was_running) {
                     AcqRec a;
                     a.id = ++w->acq_id;
-                    a.cfg[0] = w->pending[0];
-                    a.cfg[1] = w->pending[1];
+                    a.cfg[0] = w->applied[0];
+                    a.cfg[1] = w->applied[1];
                     w->acqs.push_back(a);
                 } else if (current_acq()) {
                     current_acq()->disturbed = true;
@@ -1779,12 +1821,21 @@ struct RtHarness : Harness
                 struct AcquirePropertyMetadata meta;
                 memset(&meta, 0, sizeof(meta));
                 acquire_get_configuration_metadata(w->rt, &meta);
+            } else if (op.name == "mon_wait") {
+                // the client waits until its monitoring loop has done the
+                // maps it wanted (a loop without a bound is left alone)
+                int s = (int)(op.i("s") % 2);
+                if (w->mon_tid[s] >= 0 && w->mon_finite[s]) {
+                    join(w->mon_tid[s]);
+                    w->mon_tid[s] = -1;
+                }
             } else if (op.name == "mon") {
                 int s = (int)(op.i("s") % 2);
                 if (op.i("on")) {
                     if (w->mon_tid[s] >= 0)
                         continue;
                     w->mon_stop[s] = false;
+                    w->mon_finite[s] = op.i("maxmaps", 1000000) < 1000000;
                     std::string nm = "monitor" + std::to_string(s);
                     w->mon_tid[s] =
                       spawn(nm.c_str(), [s, op] { monitor_thread(s, op); });
@@ -1923,7 +1974,8 @@ struct Reg
             "one append reached storage")
              .c_str(),
            { { "plain", 3000, 60000, false },
-             { "monitor", 1000, 20000, false } },
+             { "monitor", 1000, 20000, false },
+             { "fault", 756, 15120, true } },
            { "n.appends", "n.monitor_nonempty_maps",
              "reach.monitor_partial_consume" });
         mk("C06", "exploration",
